@@ -21,11 +21,18 @@ def user_f(x):
     return x * x * x + 1.0
 
 
+def user_fc(x):
+    """f(x) = (1 + 2i) x^2 / 4 + i x - i  (entire, complex coefficients)"""
+    return (1 + 2j) * x * x / 4 + 1j * x - 1j
+
+
 def functions(in_log_domain, nonsingular):
     """(name, scalar function, caller) triples applicable to a spectrum."""
     import cola
     out = [("exp", np.exp, lambda A, alg: cola.linalg.exp(A, alg)),
-           ("apply_unary", user_f, lambda A, alg: cola.linalg.apply_unary(user_f, A, alg))]
+           ("apply_unary", user_f, lambda A, alg: cola.linalg.apply_unary(user_f, A, alg)),
+           # a user function with non-real Taylor coefficients: complex-valued on a real spectrum
+           ("apply_unary_cplx", user_fc, lambda A, alg: cola.linalg.apply_unary(user_fc, A, alg))]
     if in_log_domain:
         out += [("log", np.log, lambda A, alg: cola.linalg.log(A, alg)),
                 ("sqrt", np.sqrt, lambda A, alg: cola.linalg.sqrt(A, alg)),
